@@ -1,19 +1,457 @@
 package main
 
-import c "verif/harness/common"
+// End-to-end stage: a real embedded Authority with real JWK and X5C provisioners, real tokens,
+// SoftCAS and SSH signers.  Sign / Renew / SignSSH / RenewSSH / RekeySSH are called as the API
+// handlers call them; only the provisioner package clock is pinned (hook), the validator's,
+// authority's and SoftCAS's own clocks are the wall clock.
 
-type RenewCase struct{}
+import (
+	"context"
+	"crypto"
+	"crypto/ecdsa"
+	"crypto/elliptic"
+	"crypto/rand"
+	"crypto/x509"
+	"crypto/x509/pkix"
+	"encoding/base64"
+	"encoding/pem"
+	"fmt"
+	"math/big"
+	"strings"
+	"sync/atomic"
+	"time"
 
-func (k *RenewCase) run(mode string) (string, string, string) { return "", "", "" }
+	"go.step.sm/crypto/jose"
+	"golang.org/x/crypto/ssh"
+
+	"github.com/smallstep/certificates/authority"
+	"github.com/smallstep/certificates/authority/config"
+	"github.com/smallstep/certificates/authority/provisioner"
+	c "verif/harness/common"
+)
 
 type ACMECase struct{}
 
 func (k *ACMECase) run() (string, string) { return "", "" }
 
 func (k *SSHCase) runProv() (string, string, string) { return "", "", "" }
+func genProv(r *c.Rng) *Case                           { return genE2E(r) }
+func cornerProv() []*Case                              { return cornerE2E() }
+func cleanup()                                         {}
 
-func genProv(r *c.Rng) *Case { return genSSH(r, true) }
-func genE2E(r *c.Rng) *Case  { return genSSH(r, true) }
-func cornerProv() []*Case    { return nil }
-func cornerE2E() []*Case     { return nil }
-func cleanup()               {}
+// RenewCase is the end-to-end case (sign, then optionally renew / rekey what was issued).
+type RenewCase struct {
+	Kind     string // x509 | ssh
+	Prov     string // jwk | x5c
+	A, P     *ClaimSet
+	Backdate int64
+	SNB, SNA TD // x509 request
+	UVA, UVB TD // ssh request options
+	KVA, KVB TD // ssh options inside the token
+	CType    uint32
+	LNB, LNA T // x5c credential window (whole seconds)
+	Renew    bool
+}
+
+type envT struct {
+	root, inter         *x509.Certificate
+	rootKey, interKey   *ecdsa.PrivateKey
+	jwk                 *jose.JSONWebKey
+	sshUser, sshHost    crypto.Signer
+	csr                 *x509.CertificateRequest
+	leafKey             *ecdsa.PrivateKey
+	sshPub2             ssh.PublicKey
+	rootPEM             []byte
+	serial              int64
+}
+
+var env *envT
+var jti int64
+
+func mustKey() *ecdsa.PrivateKey {
+	k, err := ecdsa.GenerateKey(elliptic.P256(), rand.Reader)
+	if err != nil {
+		panic(err)
+	}
+	return k
+}
+
+func (e *envT) issue(tpl, parent *x509.Certificate, pub crypto.PublicKey, signer crypto.Signer) *x509.Certificate {
+	e.serial++
+	tpl.SerialNumber = big.NewInt(e.serial)
+	der, err := x509.CreateCertificate(rand.Reader, tpl, parent, pub, signer)
+	if err != nil {
+		panic(err)
+	}
+	crt, err := x509.ParseCertificate(der)
+	if err != nil {
+		panic(err)
+	}
+	return crt
+}
+
+func getEnv() *envT {
+	if env != nil {
+		return env
+	}
+	e := &envT{}
+	e.rootKey, e.interKey, e.leafKey = mustKey(), mustKey(), mustKey()
+	t0 := time.Now().Add(-24 * time.Hour)
+	rootTpl := &x509.Certificate{Subject: pkix.Name{CommonName: "verif root"}, NotBefore: t0, NotAfter: t0.AddDate(20, 0, 0),
+		IsCA: true, BasicConstraintsValid: true, KeyUsage: x509.KeyUsageCertSign | x509.KeyUsageCRLSign, MaxPathLen: 2}
+	e.root = e.issue(rootTpl, rootTpl, e.rootKey.Public(), e.rootKey)
+	intTpl := &x509.Certificate{Subject: pkix.Name{CommonName: "verif intermediate"}, NotBefore: t0, NotAfter: t0.AddDate(10, 0, 0),
+		IsCA: true, BasicConstraintsValid: true, KeyUsage: x509.KeyUsageCertSign | x509.KeyUsageCRLSign, MaxPathLen: 0, MaxPathLenZero: true}
+	e.inter = e.issue(intTpl, e.root, e.interKey.Public(), e.rootKey)
+	e.rootPEM = pem.EncodeToMemory(&pem.Block{Type: "CERTIFICATE", Bytes: e.root.Raw})
+	jwk, err := jose.GenerateJWK("EC", "P-256", "ES256", "sig", "", 0)
+	if err != nil {
+		panic(err)
+	}
+	jwk.KeyID, _ = jose.Thumbprint(jwk)
+	e.jwk = jwk
+	e.sshUser, e.sshHost = mustKey(), mustKey()
+	der, err := x509.CreateCertificateRequest(rand.Reader, &x509.CertificateRequest{
+		Subject: pkix.Name{CommonName: "leaf.verif.test"}, DNSNames: []string{"leaf.verif.test"}}, e.leafKey)
+	if err != nil {
+		panic(err)
+	}
+	e.csr, _ = x509.ParseCertificateRequest(der)
+	e.sshPub2, _ = ssh.NewPublicKey(mustKey().Public())
+	env = e
+	return e
+}
+
+func (k *RenewCase) provClaims() *provisioner.Claims {
+	cl := k.P.claims()
+	if cl == nil {
+		cl = &provisioner.Claims{}
+	}
+	t := true
+	cl.EnableSSHCA = &t
+	return cl
+}
+
+func (k *RenewCase) authority() (*authority.Authority, error) {
+	e := getEnv()
+	pub := e.jwk.Public()
+	jp := &provisioner.JWK{Name: "jwk", Type: "JWK", Key: &pub, Claims: k.provClaims()}
+	xp := &provisioner.X5C{Name: "x5c", Type: "X5C", Roots: e.rootPEM, Claims: k.provClaims()}
+	cfg := &config.Config{
+		Address:  ":443",
+		DNSNames: []string{"ca.verif.test"},
+		AuthorityConfig: &config.AuthConfig{
+			Provisioners: provisioner.List{jp, xp},
+			Backdate:     &provisioner.Duration{Duration: time.Duration(k.Backdate)},
+			Claims:       k.A.claims(),
+		},
+	}
+	return authority.NewEmbedded(authority.WithConfig(cfg), authority.WithX509RootCerts(e.root),
+		authority.WithX509Signer(e.inter, e.interKey), authority.WithSSHUserSigner(e.sshUser),
+		authority.WithSSHHostSigner(e.sshHost), authority.WithQuietInit())
+}
+
+type tokenClaims struct {
+	jose.Claims
+	SANs []string               `json:"sans,omitempty"`
+	Step map[string]interface{} `json:"step,omitempty"`
+}
+
+// token mints a provisioning token the way `step ca token` does.
+func (k *RenewCase) token(aud, sub string, sshOpts *provisioner.SignSSHOptions, lnb, lna time.Time) (string, error) {
+	e := getEnv()
+	now := time.Now()
+	n := atomic.AddInt64(&jti, 1)
+	cl := tokenClaims{Claims: jose.Claims{ID: fmt.Sprintf("jti-%d-%d", now.UnixNano(), n), Subject: sub, Issuer: k.Prov,
+		NotBefore: jose.NewNumericDate(now.Add(-30 * time.Second)), Expiry: jose.NewNumericDate(now.Add(5 * time.Minute)),
+		Audience: []string{aud}}}
+	if sshOpts != nil {
+		cl.Step = map[string]interface{}{"ssh": sshOpts}
+	} else {
+		cl.SANs = []string{sub}
+	}
+	var sig jose.Signer
+	var err error
+	if k.Prov == "x5c" {
+		key := mustKey()
+		leafTpl := &x509.Certificate{Subject: pkix.Name{CommonName: "credential"}, NotBefore: lnb, NotAfter: lna,
+			KeyUsage: x509.KeyUsageDigitalSignature, ExtKeyUsage: []x509.ExtKeyUsage{x509.ExtKeyUsageClientAuth}}
+		leaf := e.issue(leafTpl, e.inter, key.Public(), e.interKey)
+		chain := []string{base64.StdEncoding.EncodeToString(leaf.Raw), base64.StdEncoding.EncodeToString(e.inter.Raw)}
+		sig, err = jose.NewSigner(jose.SigningKey{Algorithm: jose.ES256, Key: key},
+			new(jose.SignerOptions).WithType("JWT").WithHeader("x5c", chain))
+	} else {
+		sig, err = jose.NewSigner(jose.SigningKey{Algorithm: jose.ES256, Key: e.jwk.Key},
+			new(jose.SignerOptions).WithType("JWT").WithHeader("kid", e.jwk.KeyID))
+	}
+	if err != nil {
+		return "", err
+	}
+	return jose.Signed(sig).Claims(cl).CompactSerialize()
+}
+
+func (k *RenewCase) run(mode string) (line, impl, exp string) {
+	// never called: end-to-end cases emit several lines through runAll
+	return "", "", ""
+}
+
+// runAll returns the (line, impl) pairs of one end-to-end case.
+func (k *RenewCase) runAll() (out [][2]string) {
+	defer func() {
+		if r := recover(); r != nil {
+			out = append(out, [2]string{"skip reason=harness-panic", fmt.Sprint("skip ", r)[:40]})
+		}
+	}()
+	e := getEnv()
+	a, err := k.authority()
+	if err != nil {
+		return nil // claims that do not initialise: covered by the claims op of the unit stage
+	}
+	ac, _ := provisioner.NewClaimer(k.A.claims(), config.GlobalProvisionerClaims)
+	g := fullOf(ac.Claims())
+	cl := claimer(g, k.P)
+	base := time.Now().Round(0).UTC()
+	restore := provisioner.VerifSetNow(base)
+	defer restore()
+	lnb, lna := k.LNB.at(base).Truncate(time.Second), k.LNA.at(base).Truncate(time.Second)
+	mode := "def"
+	if k.Prov == "x5c" {
+		mode = "lim"
+		if !lnb.Before(base.Add(-time.Second)) || !lna.After(base.Add(2*time.Second)) {
+			return nil // the credential itself would not verify: authentication, not C06
+		}
+	}
+	ctx := context.Background()
+	switch k.Kind {
+	case "x509":
+		snb, snbS := k.SNB.build(base)
+		sna, snaS := k.SNA.build(base)
+		var certs []*x509.Certificate
+		var vnow time.Time
+		for try := 0; ; try++ {
+			tok, err := k.token("https://ca.verif.test/1.0/sign", "leaf.verif.test", nil, lnb, lna)
+			if err != nil {
+				return nil
+			}
+			vnow = time.Now()
+			sctx := provisioner.NewContextWithMethod(ctx, provisioner.SignMethod)
+			var so []provisioner.SignOption
+			so, err = a.Authorize(sctx, tok)
+			if err != nil {
+				return append(out, [2]string{"skip reason=authorize", "skip"})
+			}
+			certs, err = a.SignWithContext(sctx, e.csr, provisioner.SignOptions{NotBefore: snb, NotAfter: sna}, so...)
+			if after := time.Now(); after.Unix() != vnow.Unix() && try < 5 {
+				continue
+			}
+			if err != nil {
+				impl = "rej"
+			} else {
+				impl = fmt.Sprintf("ok cert=%d,%d", certs[0].NotBefore.Unix()+unixToInternal, certs[0].NotAfter.Unix()+unixToInternal)
+			}
+			break
+		}
+		line = fmt.Sprintf("x509 e2e=1 cas=1 mode=%s lnb=%s lna=%s g=%s p=%s bd=%d now=%s vnow=%s snb=%s sna=%s cnb=0:0 cna=0:0",
+			mode, timeS(lnb), timeS(lna), g, k.P, k.Backdate, timeS(base), timeS(vnow), snbS, snaS)
+		out = append(out, [2]string{line, impl})
+		if k.Renew && strings.HasPrefix(impl, "ok") {
+			t0 := time.Now()
+			nc, err := a.Renew(certs[0])
+			t1 := time.Now()
+			rl := fmt.Sprintf("xrenew casnow=%s bd=%d onb=%s ona=%s", timeS(t0), k.Backdate, timeS(certs[0].NotBefore), timeS(certs[0].NotAfter))
+			if err != nil {
+				out = append(out, [2]string{rl, "rej:500:cas"})
+			} else {
+				lo := t0.Add(-time.Duration(k.Backdate)).Truncate(time.Second)
+				hi := t1.Add(-time.Duration(k.Backdate)).Truncate(time.Second)
+				off := "0"
+				if nc[0].NotBefore.Before(lo) || nc[0].NotBefore.After(hi) {
+					off = fmt.Sprint(nc[0].NotBefore.Sub(lo))
+				}
+				out = append(out, [2]string{rl, fmt.Sprintf("ok d=%d nboff=%s", nc[0].NotAfter.Unix()-nc[0].NotBefore.Unix(), off)})
+			}
+		}
+	case "ssh":
+		uva, uvaS := k.UVA.build(base)
+		uvb, uvbS := k.UVB.build(base)
+		kva, kvaS := k.KVA.build(base)
+		kvb, kvbS := k.KVB.build(base)
+		ct := "user"
+		if k.CType == 2 {
+			ct = "host"
+		}
+		tokOpts := &provisioner.SignSSHOptions{CertType: ct, KeyID: "leaf.verif.test", Principals: []string{"leaf.verif.test"}, ValidAfter: kva, ValidBefore: kvb}
+		tok, err := k.token("https://ca.verif.test/1.0/ssh/sign", "leaf.verif.test", tokOpts, lnb, lna)
+		if err != nil {
+			return nil // an instant JSON cannot carry
+		}
+		line = fmt.Sprintf("sshp e2e=1 mode=%s lna=%s g=%s p=%s ct=%d bd=%d now=%s uva=%s uvb=%s kva=%s kvb=%s cva=0 cvb=0",
+			mode, timeS(lna), g, k.P, k.CType, k.Backdate, timeS(base), uvaS, uvbS, kvaS, kvbS)
+		var cert *ssh.Certificate
+		impl = func() (impl string) {
+			defer func() {
+				if r := recover(); r != nil {
+					impl = "crash"
+				}
+			}()
+			sctx := provisioner.NewContextWithMethod(ctx, provisioner.SSHSignMethod)
+			so, err := a.Authorize(sctx, tok)
+			if err != nil {
+				return "rej"
+			}
+			// the request repeats the token's options where it sets any (they must match)
+			ropts := provisioner.SignSSHOptions{CertType: ct, KeyID: "leaf.verif.test", Principals: []string{"leaf.verif.test"}, ValidAfter: uva, ValidBefore: uvb}
+			cert, err = a.SignSSH(sctx, e.sshPub2, ropts, so...)
+			if err != nil {
+				return "rej"
+			}
+			return fmt.Sprintf("ok va=%d vb=%d", cert.ValidAfter, cert.ValidBefore)
+		}()
+		out = append(out, [2]string{line, impl})
+		if k.Renew && strings.HasPrefix(impl, "ok") {
+			for _, op := range []string{"renew", "rekey"} {
+				t0 := time.Now()
+				var nc *ssh.Certificate
+				var err error
+				res := func() (res string) {
+					defer func() {
+						if r := recover(); r != nil {
+							res = "crash"
+						}
+					}()
+					if op == "renew" {
+						nc, err = a.RenewSSH(ctx, cert)
+					} else {
+						nc, err = a.RekeySSH(ctx, cert, e.sshPub2, provisioner.VerifSSHCertValidityValidator(cl), provisioner.VerifSSHCertDefaultValidator())
+					}
+					if err != nil {
+						return "rej"
+					}
+					return "ok"
+				}()
+				t1 := time.Now()
+				rl := fmt.Sprintf("ssh%s anow=%s pnow=%s g=%s p=%s bd=%d ova=%d ovb=%d ct=%d", op, timeS(t0), timeS(base), g, k.P, k.Backdate, cert.ValidAfter, cert.ValidBefore, k.CType)
+				if res == "ok" {
+					lo := uint64(t0.Add(-time.Duration(k.Backdate)).Unix())
+					hi := uint64(t1.Add(-time.Duration(k.Backdate)).Unix())
+					off := "0"
+					if nc.ValidAfter < lo || nc.ValidAfter > hi {
+						off = fmt.Sprint(int64(nc.ValidAfter) - int64(lo))
+					}
+					res = fmt.Sprintf("ok d=%d vaoff=%s", nc.ValidBefore-nc.ValidAfter, off)
+				}
+				out = append(out, [2]string{rl, res})
+			}
+		}
+	}
+	return out
+}
+
+func genE2E(r *c.Rng) *Case {
+	k := &RenewCase{Kind: "x509", Prov: "jwk", CType: uint32(1 + r.Intn(2)), Renew: r.Chance(1, 2)}
+	if r.Chance(1, 2) {
+		k.Kind = "ssh"
+	}
+	if r.Chance(2, 5) {
+		k.Prov = "x5c"
+	}
+	// claims that initialise (consistent), at authority and provisioner level
+	k.A = genClaimSet(r, false)
+	k.P = genClaimSet(r, false)
+	k.Backdate = c.Pick(r, backdates)
+	ac := claimer(hard, k.A)
+	g := fullOf(ac.Claims())
+	var mn, mx, df int64
+	if k.Kind == "x509" {
+		mn, mx, df = tlsOf(g, k.P)
+	} else {
+		mn, mx, df = sshOf(g, k.P, k.CType)
+	}
+	anchors := []int64{mn, mx, addSat(mx, k.Backdate), df, 0}
+	aim := func() int64 { return addSat(c.Pick(r, anchors), c.Pick(r, smallOffs)) }
+	startOff := int64(0)
+	genStart := func() TD {
+		switch r.Intn(8) {
+		case 0, 1:
+			d := c.Pick(r, []int64{sec, -sec, min, -min, -hr, hr, 500 * ms})
+			startOff = d
+			return TD{Kind: 2, D: d}
+		case 2, 3:
+			off := c.Pick(r, []int64{0, sec, -sec, -min, min, -hr, 500 * ms})
+			startOff = off
+			return TD{Kind: 1, T: T{Rel: true, Off: off}}
+		case 4:
+			return TD{Kind: 1, T: c.Pick(r, absTimes[2:])}
+		case 5:
+			return TD{Kind: 2, D: c.Pick(r, []int64{-290 * 365 * dy, -60 * 365 * dy, 100 * 365 * dy})}
+		}
+		return TD{}
+	}
+	genEnd := func() TD {
+		switch r.Intn(10) {
+		case 0, 1, 2:
+			return TD{Kind: 2, D: addSat(startOff, aim())}
+		case 3, 4, 5:
+			return TD{Kind: 1, T: T{Rel: true, Off: addSat(startOff, aim())}}
+		case 6:
+			return TD{Kind: 1, T: c.Pick(r, absTimes[2:])}
+		case 7:
+			if s := wrapWitness(mn, addSat(mx, k.Backdate), int64(1+r.Intn(13)), int64(r.Intn(80000))); s != 0 && k.Kind == "ssh" {
+				return TD{Kind: 1, T: T{Rel: true, Off: startOff, Sec: int64(s)}}
+			}
+		}
+		return TD{}
+	}
+	if k.Kind == "x509" {
+		k.SNB = genStart()
+		k.SNA = genEnd()
+		if k.SNA.Kind == 2 { // relative notAfter counts from the effective notBefore
+			k.SNA.D = addSat(k.SNA.D, -startOff)
+		}
+	} else {
+		if r.Chance(1, 3) {
+			k.KVA = genStart()
+			k.UVA = k.KVA // request must match the token where both are set
+			if r.Chance(1, 3) {
+				k.UVA = TD{}
+			}
+		} else {
+			k.UVA = genStart()
+		}
+		if r.Chance(1, 3) {
+			k.KVB = genEnd()
+			k.UVB = k.KVB
+			if r.Chance(1, 3) {
+				k.UVB = TD{}
+			}
+		} else {
+			k.UVB = genEnd()
+		}
+	}
+	// credential window: contains the wall clock, ends around the default / requested end
+	k.LNB = T{Rel: true, Off: c.Pick(r, []int64{-hr, -dy, -min, -10 * sec, -365 * dy})}
+	switch r.Intn(4) {
+	case 0:
+		k.LNA = T{Rel: true, Off: addSat(addSat(startOff, df), c.Pick(r, smallOffs))}
+	case 1:
+		k.LNA = T{Rel: true, Off: addSat(startOff, aim())}
+	case 2:
+		k.LNA = T{Rel: true, Off: c.Pick(r, []int64{hr, dy, 30 * dy, 365 * dy, 10 * min})}
+	default:
+		k.LNA = T{Rel: true, Off: c.Pick(r, []int64{min, 5 * min, 6 * min, 3 * hr})}
+	}
+	return &Case{Renew: k}
+}
+
+func cornerE2E() []*Case {
+	return []*Case{
+		{Renew: &RenewCase{Kind: "x509", Prov: "jwk", Backdate: min, Renew: true}},
+		{Renew: &RenewCase{Kind: "x509", Prov: "x5c", Backdate: min, Renew: true, LNB: T{Rel: true, Off: -hr}, LNA: T{Rel: true, Off: hr}}},
+		{Renew: &RenewCase{Kind: "ssh", Prov: "jwk", CType: 1, Backdate: min, Renew: true}},
+		{Renew: &RenewCase{Kind: "ssh", Prov: "x5c", CType: 2, Backdate: min, Renew: true, LNB: T{Rel: true, Off: -hr}, LNA: T{Rel: true, Off: hr}}},
+		// D6 / D7 regression through the real endpoints
+		{Renew: &RenewCase{Kind: "ssh", Prov: "jwk", CType: 1, Backdate: min, UVA: TD{Kind: 1, T: T{Rel: true}}, UVB: TD{Kind: 1, T: T{Rel: true, Sec: 18446744374}}}},
+		{Renew: &RenewCase{Kind: "ssh", Prov: "jwk", CType: 1, Backdate: min, UVA: TD{Kind: 1, T: T{Sec: unixToInternal - 315619200}}}},
+		{Renew: &RenewCase{Kind: "ssh", Prov: "jwk", CType: 1, Backdate: min, KVA: TD{Kind: 2, D: -290 * 365 * dy}, UVA: TD{Kind: 2, D: -290 * 365 * dy}}},
+	}
+}
